@@ -116,6 +116,7 @@ def build_source(eng, p):
         ev.create_dataset("peter", data=np.arange(3.), chunks=(3,))
     f.attrs["setup:channel width"] = 20.0
     f.attrs["experiment:event count"] = N
+    f.attrs["user:gate:lower"] = 1.5       # user keys may contain colons
     with quiet():
         # --- logs
         if p["logs"] >= 1:
@@ -174,6 +175,15 @@ def sym_equal(a, b):
 
 def diff(eng, a, b, path="", ignore=()):
     out = []
+    if path == "":
+        # attributes of the file itself (the metadata)
+        for ak, av in a.attrs.items():
+            if ak not in b.attrs:
+                out.append("attr-missing /@%s" % ak)
+            elif not isinstance(av, SReal) and not isinstance(
+                    b.attrs[ak], SReal) and not symh5._val_equal(
+                        av, b.attrs[ak]) and ak != "setup:software version":
+                out.append("attr-differs /@%s" % ak)
     for k in a.keys():
         pth = path + "/" + k
         if pth in ignore:
@@ -539,6 +549,7 @@ def replay(case, params, v):
                                                  ("b", float)]))
                 hw.store_basin("b0", "file", "hdf5", ["/d/o0.rtdc"],
                                verify=False)
+                hw.h5file.attrs["user:gate:lower"] = 1.5
             opts = {}
             if p["task"] == "repack":
                 opts = dict(strip_basins=bool(vals.get("strip_basins",
@@ -546,6 +557,11 @@ def replay(case, params, v):
                             strip_logs=bool(vals.get("strip_logs", False)))
             getattr(cli, p["task"])(path_in=ps, path_out=pd, **opts)
             with h5py.File(ps, "r") as a, h5py.File(pd, "r") as b:
+                for ak in ("user:gate:lower", "setup:channel width"):
+                    if ak not in b.attrs or b.attrs[ak] != a.attrs[ak]:
+                        fails.append("dclab-%s: root attribute %r of the "
+                                     "input is missing in the output" % (
+                                         p["task"], ak))
                 for grp, strip in (("tables", False),
                                    ("logs", opts.get("strip_logs")),
                                    ("basins", opts.get("strip_basins")),
@@ -618,6 +634,7 @@ def replay(case, params, v):
                     ev.create_dataset("area_um", data=np.zeros(0),
                                       chunks=(1,), maxshape=(None,))
                 h.attrs["setup:channel width"] = 20.0
+                h.attrs["user:gate:lower"] = 1.5
             with Wm.RTDCWriter(ps, mode="append") as hw:
                 if p["logs"]:
                     hw.store_log("fixed-log", ["line one", "line two"])
@@ -654,6 +671,12 @@ def replay(case, params, v):
                              "%s)" % (e, p["basins"], p["empty_feature"]))
             if not fails:
                 with h5py.File(ps, "r") as a, h5py.File(pd, "r") as b:
+                    for ak in a.attrs:
+                        if ak not in b.attrs or not np.all(
+                                a.attrs[ak] == b.attrs[ak]):
+                            fails.append("root attribute %r not copied"
+                                         % ak)
+
                     def walk(x, y, pth):
                         for k in x:
                             q = pth + "/" + k
